@@ -42,6 +42,8 @@ type rdType struct {
 	Fields []rdField `json:"fields,omitempty"`
 	// OpenCmt: a comment behind "struct {" (it documents nothing, in particular not the first field)
 	OpenCmt string `json:"opencmt,omitempty"`
+	// BlockDoc: the type's doc is written as one /* ... */ comment spanning its lines
+	BlockDoc bool `json:"blockdoc,omitempty"`
 }
 
 type rdPkg struct {
@@ -117,6 +119,13 @@ func genRDPkg(t *rapid.T, idx int) rdPkg {
 			name = fmt.Sprintf("hidden%d", i)
 		}
 		ty := rdType{Name: name, Doc: genDoc(t, name, true)}
+		if len(ty.Doc) >= 2 && rapid.IntRange(0, 3).Draw(t, "blockdoc") == 0 {
+			ok := true
+			for _, l := range ty.Doc {
+				ok = ok && l != "" && l == strings.TrimSpace(l) && !strings.Contains(l, "*/")
+			}
+			ty.BlockDoc = ok
+		}
 		switch rapid.IntRange(0, 11).Draw(t, "kind") {
 		case 0, 1, 2, 3, 4:
 			ty.Kind = "struct"
@@ -307,7 +316,11 @@ func (p rdPkg) source() string {
 	}
 	for _, ty := range p.Types {
 		b.WriteString("\n")
-		writeDoc(b, "", ty.Doc)
+		if ty.BlockDoc {
+			fmt.Fprintf(b, "/* %s */\n", strings.Join(ty.Doc, "\n"))
+		} else {
+			writeDoc(b, "", ty.Doc)
+		}
 		switch ty.Kind {
 		case "struct", "generic", "noexported":
 			tp := ""
